@@ -182,10 +182,14 @@ def build_signal(case, data):
     cls = CLASSES[case["cls"]]
     if case.get("dask"):
         if case.get("chunk1"):
-            chunks = (max(1, data.shape[0]),) + (1,) * (data.ndim - 1)
+            chunks = [max(1, data.shape[0])] + [1] * (data.ndim - 1)
         else:
-            chunks = tuple(max(1, s) for s in data.shape)
-        data = da.from_array(data, chunks=chunks)
+            chunks = [max(1, s) for s in data.shape]
+        if case.get("fchunks"):                 # chunk sizes along the frequency axis (1, 2, 3, mixed)
+            chunks[1] = tuple(case["fchunks"])
+        if case.get("tchunk") and data.shape[0] > 1:
+            chunks[0] = max(1, min(int(case["tchunk"]), data.shape[0]))
+        data = da.from_array(data, chunks=tuple(chunks))
     kw = dict(sample_rate=Q(case["rate"]), center_freq=Q(case["cf"]), freq_align=case["align"],
               start_time=common.EPOCHS[case["epoch"]] if case["hasT"] else None,
               meta={"verif": [1, {"k": "v"}], "tag": case["cls"]})
@@ -238,6 +242,10 @@ def _fq_fields(p, pre):
 
 def run_law_case(case):
     DM, dmx = _dm(case)
+    return _law_events(case, DM, dmx)
+
+
+def _law_events(case, DM, dmx):
     evs = []
     if "chain" in case:
         fs = case["chain"]
@@ -335,13 +343,12 @@ def exact_delays(z, dmx, ref):
     return [K * dmx * (1 / (f * f) - 1 / (rx * rx)) * rate for f in common.hz(z.channel_freqs)]
 
 
-def run_incoh_case(case):
-    z, data = incoh_signal(case)
-    DM, dmx = _dm(case)
+def incoh_event(case, z, DM, dmx, refp, note=""):
+    """one call of incoherent_dedispersion(z, DM[, ref_freq]) on the given objects -> event"""
     kw = {}
     ref = z.center_freq
-    if case.get("ref") is not None:
-        ref = kw["ref_freq"] = Q(case["ref"])
+    if refp is not None:
+        ref = kw["ref_freq"] = Q(refp)
     err, y, out = False, None, None
     try:
         y = pb.incoherent_dedispersion(z, DM, **kw)
@@ -354,31 +361,57 @@ def run_incoh_case(case):
          "src": [[] for _ in range(case["nchan"])], "decoded": True, "xcheck": bool(case.get("xcheck")),
          "zin": meta_rec(z), "zout": meta_rec(z) if err else meta_rec(y),
          "_cost": 0.05 + 0.002 * case["n"] * case["nchan"],
-         "_desc": "incoherent_dedispersion(%s len=%d nchan=%d %s trail=%r %s%s, DM=%r, ref=%r) -> %s"
-                  % (case["cls"], case["n"], case["nchan"], case["align"], case["trail"], case["dtype"],
-                     " dask" if case.get("dask") else "", case["dm"], case.get("ref"),
-                     err or "len %d" % out.shape[0])}
+         "_desc": "%sincoherent_dedispersion(%s len=%d nchan=%d %s trail=%r %s%s, DM=%r, ref=%r) -> %s"
+                  % (note, case["cls"], case["n"], case["nchan"], case["align"], case["trail"], case["dtype"],
+                     (" dask chunks %r" % (z.data.chunks[:2],)) if isinstance(z.data, da.Array) else "",
+                     float(dmx), refp, err or "len %d" % out.shape[0])}
     e.update(start_fields(z, y))
     if not err:
         e["src"], e["decoded"] = decode_ident(out, case["nchan"])
         if case.get("dask") and not isinstance(y.data, da.Array):
             e["decoded"] = False
-    return [e]
+    return e
+
+
+def run_incoh_case(case):
+    z, data = incoh_signal(case)
+    DM, dmx = _dm(case)
+    return [incoh_event(case, z, DM, dmx, case.get("ref"))]
 
 
 RADIO = ["RadioSignal", "IntensitySignal", "FullStokesSignal", "BasebandSignal", "DualPolarizationSignal"]
+
+
+def pick_chunks(rnd, n, nchan):
+    """Dask chunking: frequency axis in chunks of 1, 2, 3 or mixed sizes (or whole),
+    time axis whole or split"""
+    out = {}
+    mode = rnd.choice(["whole", "ones", "twos", "threes", "mixed", "mixed"])
+    if mode != "whole" and nchan > 1:
+        sizes, left = [], nchan
+        while left > 0:
+            k = {"ones": 1, "twos": 2, "threes": 3}.get(mode) or rnd.choice([1, 2, 3])
+            k = min(k, left)
+            sizes.append(k)
+            left -= k
+        out["fchunks"] = sizes
+    if rnd.random() < 0.3 and n > 1:
+        out["tchunk"] = rnd.randint(1, n)
+    return out
 
 
 def gen_incoh_case(rnd, i):
     """parameters whose exact channel delays are >= 1e-3 away from every half-integer"""
     for _ in range(200):
         cls = RADIO[i % 5]
-        nchan = rnd.choice([1, 2, 2, 3, 3, 4, 4, 5, 6])
+        nchan = rnd.choice([1, 2, 2, 3, 3, 4, 4, 5, 6, 7, 8])
         n = rnd.choice([1, 2, 3, 5, 8, 8, 13, 16, 21, 32])
         case = {"kind": "incoh", "cls": cls, "n": n, "nchan": nchan, "align": rnd.choice(["bottom", "center", "top"]),
                 "trail": rnd.choice([[], [], [2], [1, 3]]) if cls != "FullStokesSignal" else rnd.choice([[], [2]]),
                 "hasT": rnd.random() < 0.7, "epoch": rnd.randrange(4), "dask": rnd.random() < 0.3,
                 "chunk1": rnd.random() < 0.5}
+        if case["dask"]:
+            case.update(pick_chunks(rnd, n, nchan))
         if cls in ("BasebandSignal", "DualPolarizationSignal"):
             case["dtype"] = rnd.choice(["complex128", "complex64"])
         elif cls == "RadioSignal":
@@ -495,8 +528,11 @@ def gen_chirpfn_case(rnd, full=False):
             "bins": pick_bins(rnd, N, full), "mode": mode}
 
 
-def run_chirpfn_case(case):
-    DM, dmx = _dm(case)
+def run_chirpfn_case(case, DM=None):
+    if DM is None:
+        DM, dmx = _dm(case)
+    else:
+        dmx = Fraction(dm_value(DM))
     tu, tsc = TUN[case["dt"][1]]
     dt = float(case["dt"][0]) * tu
     ch = DM.chirp_function(case["N"], dt, Q(case["cf"]), Q(case["ref"]), use_dask=bool(case["dask"]))
@@ -561,6 +597,8 @@ def gen_bb_case(rnd, kind, Ns, span=None, decades=False, nchans=(1, 2, 3, 4)):
                 "hasT": rnd.random() < 0.75, "epoch": rnd.randrange(4), "pol": rnd.choice(["linear", "circular"]),
                 "rate": in_unit(rate, rnd.choice(["Hz", "kHz", "MHz"])), "cf": in_unit(fc, rnd.choice(list(UN))),
                 "dmu": "pc/cm3", "seed": rnd.randrange(1 << 30)}
+        if case["dask"] and rnd.random() < 0.6:
+            case.update({k: v for k, v in pick_chunks(rnd, N, nchan).items() if k == "fchunks"})
         z = bb_signal(case, np.zeros(bb_shape(case), case["dtype"]))
         lo, hi = float(common.hz(z.min_freq)), float(common.hz(z.max_freq))
         mode = rnd.choice(["none", "top", "bot", "inside", "below", "above"])
@@ -673,7 +711,7 @@ def rows_of(case):
     return [(c, t) for c in range(case["nchan"]) for t in range(nt)]
 
 
-def run_tone_case(case):
+def tone_signal(case):
     """every (channel, trailing) row carries a pure tone in its own DFT bin"""
     N = case["N"]
     rows = rows_of(case)
@@ -681,17 +719,21 @@ def run_tone_case(case):
     shape = bb_shape(case)
     nt = len(rows) // case["nchan"]
     data = np.zeros((N, case["nchan"], nt), np.complex128)
-    ks, amps = [], []
+    ks = []
     n = np.arange(N)
     for c, t in rows:
         k = rnd.randrange(N)
         a = complex(rnd.choice([1, 2, 3, -2]), rnd.choice([0, 1, -3]))
         ks.append(k)
-        amps.append(a)
         data[:, c, t] = a * np.exp(2j * np.pi * ((k * n) % N) / N)
     data = data.reshape(shape).astype(case["dtype"])
-    z = bb_signal(case, data)
-    DM, dmx = _dm(case)
+    return bb_signal(case, data), data, ks
+
+
+def tone_event(case, z, data, ks, DM, dmx, note=""):
+    N = case["N"]
+    rows = rows_of(case)
+    nt = len(rows) // case["nchan"]
     ref, kw, refis = ref_of(case, z)
     y = pb.coherent_dedispersion(z, DM, **kw)
     o = compute(y)
@@ -701,7 +743,15 @@ def run_tone_case(case):
     o3 = o.reshape(o.shape[0], case["nchan"], nt)
     e.update(ev="tone", ks=ks, amp=5, fq=[lab[c] for c, t in rows],
              x=[cfix_list(x3[:, c, t]) for c, t in rows], out=[cfix_list(o3[:, c, t]) for c, t in rows],
-             _cost=0.1 + 0.0012 * N * len(rows), _desc="tones %r -> len %d: %s" % (ks, len(y), describe(case)))
+             _cost=0.1 + 0.0012 * N * len(rows),
+             _desc="%stones %r -> len %d: %s (DM object holds %r)" % (note, ks, len(y), describe(case), float(dmx)))
+    return e, kw, y, o
+
+
+def run_tone_case(case):
+    z, data, ks = tone_signal(case)
+    DM, dmx = _dm(case)
+    e, kw, y, o = tone_event(case, z, data, ks, DM, dmx)
     evs = [e]
     if case.get("supplied"):
         evs.append(supplied_event(case, z, DM, kw, y, o))
@@ -782,7 +832,173 @@ def run_roundtrip_case(case):
     return [e]
 
 
-RUNNERS = {"law": run_law_case, "incoh": run_incoh_case, "chirpfn": run_chirpfn_case, "chirpsig": run_chirpsig_case,
+# ================================================================== sessions: several calls, shared objects
+PCC = u.pc / u.cm ** 3
+
+
+def dm_value(DM):
+    return float(DM.to_value(PCC))
+
+
+def mutate_dm(DM, op, target):
+    """bring a DispersionMeasure to (about) `target`: a new object, or the SAME object changed in place"""
+    cur = None if DM is None else dm_value(DM)
+    if op == "new" or DM is None:
+        return pb.DM(float(target))
+    if op == "iadd":
+        DM += (float(target) - cur) * PCC
+    elif op == "isub":
+        DM -= (cur - float(target)) * PCC
+    elif op == "imul" and cur != 0:
+        DM *= float(target) / cur
+    elif op == "neg":
+        DM *= -1
+    else:                                   # "set"
+        DM[...] = pb.DM(float(target))
+    return DM
+
+
+def dm_walk(steps):
+    """the values a DM object really holds along a list of (op, target) steps"""
+    DM, out = None, []
+    for op, target in steps:
+        DM = mutate_dm(DM, op, target)
+        out.append(dm_value(DM))
+    return out
+
+
+NEARBY = (1e-9, 1e-7, 1e-6, 1e-5, 2e-5, 3e-5, 4e-5, 1e-4, 1e-3, 1e-2)
+
+
+def nearby_dm(rnd, v):
+    """another DM close to v: absolute or relative steps from 1e-9 to 1e-2, either direction"""
+    s = rnd.choice(NEARBY) * rnd.choice([1, -1])
+    if v == 0 or (abs(s) < 0.5 * abs(v) and rnd.random() < 0.6):
+        return v + s
+    return v * (1 + s)
+
+
+def gen_dm_steps(rnd, v0, ok, k):
+    """k (op, target) steps starting with a new object at v0; ok(value) says whether a DM value is usable
+    (away from rounding / ceiling boundaries); the first value is repeated at the end"""
+    steps = [("new", v0)]
+    for i in range(k - 1):
+        for _ in range(30):
+            op = rnd.choice(["iadd", "isub", "imul", "set", "neg", "new", "iadd"])
+            cur = dm_walk(steps)[-1]
+            r = rnd.random()
+            target = -cur if op == "neg" else nearby_dm(rnd, cur) if r < 0.6 else \
+                cur * rnd.uniform(0.3, 1.7) if r < 0.9 else nearby_dm(rnd, 0.0)
+            if i == k - 2:
+                op, target = rnd.choice(["set", "iadd", "new"]), v0
+            got = dm_walk(steps + [(op, target)])[-1]
+            if ok(got):
+                steps.append((op, target))
+                break
+    return [[op, float(t)] for op, t in steps]
+
+
+def gen_lawseq_case(rnd):
+    base = gen_law_case(rnd)
+    while "chain" in base:
+        base = gen_law_case(rnd)
+    base["dmu"] = "pc/cm3"
+    return {"kind": "lawseq", "base": base, "steps": gen_dm_steps(rnd, base["dm"], lambda v: True, rnd.randint(3, 6))}
+
+
+def run_lawseq_case(case):
+    """time_delay / sample_delay with ONE DispersionMeasure object stepped in place between the calls"""
+    evs, DM = [], None
+    for i, (op, target) in enumerate(case["steps"]):
+        DM = mutate_dm(DM, op, target)
+        c = dict(case["base"], dm=dm_value(DM))
+        c.pop("fvec", None)
+        for e in _law_events(c, DM, Fraction(dm_value(DM))):
+            e["_desc"] = "step %d (%s): %s" % (i, op, e["_desc"])
+            evs.append(e)
+    return evs
+
+
+def gen_incohseq_case(rnd, i):
+    base = gen_incoh_case(rnd, i)
+    base["dmu"] = "pc/cm3"
+    z, _ = incoh_signal(base)
+    ref = Q(base["ref"]) if base.get("ref") is not None else z.center_freq
+
+    def ok(v):
+        dx = exact_delays(z, Fraction(float(v)), ref)
+        return max(abs(d) for d in dx) < 1e8 and \
+            not any(abs(abs(d - math.floor(d)) - Fraction(1, 2)) < Fraction(1, 1000) for d in dx)
+    return {"kind": "incohseq", "base": base, "steps": gen_dm_steps(rnd, base["dm"], ok, rnd.randint(3, 5))}
+
+
+def run_incohseq_case(case):
+    """several incoherent dedispersions of the SAME signal object, the DM object stepped in place;
+    the first DM comes back at the end, once more on the same object and once on a fresh copy"""
+    base = case["base"]
+    z, _ = incoh_signal(base)
+    evs, DM = [], None
+    for i, (op, target) in enumerate(case["steps"]):
+        DM = mutate_dm(DM, op, target)
+        evs.append(incoh_event(base, z, DM, Fraction(dm_value(DM)), base.get("ref"), "call %d on one signal (%s): " % (i, op)))
+    z2, _ = incoh_signal(base)
+    evs.append(incoh_event(base, z2, DM, Fraction(dm_value(DM)), base.get("ref"), "fresh copy of the signal: "))
+    return evs
+
+
+def gen_chirpseq_case(rnd, full=False):
+    """one geometry, several nearby / different DMs; half of the geometries have a large phase per unit DM"""
+    base = gen_chirpfn_case(rnd, full)
+    if rnd.random() < 0.5:
+        fc = logu(rnd, 1e8, 4e8)
+        rate = min(logu(rnd, 1e6, 1e8), 0.75 * fc)
+        base["cf"] = in_unit(fc, rnd.choice(list(UN)))
+        base["dt"] = [float(1 / Fraction(rate)), "s"]
+        base["ref"] = in_unit(rnd.choice([fc - rate / 2, fc + rate / 2, 0.7 * fc, 1.6 * fc]), rnd.choice(list(UN)))
+    if rnd.random() < 0.5:
+        base["dm"] = round(base["dm"], 4) if rnd.random() < 0.7 else 0.0
+    if len(base["bins"]) > 6:
+        base["bins"] = sorted(rnd.sample(base["bins"], 6))
+    return {"kind": "chirpseq", "base": base, "steps": gen_dm_steps(rnd, base["dm"], lambda v: True, rnd.randint(3, 5))}
+
+
+def run_chirpseq_case(case):
+    evs, DM = [], None
+    for i, (op, target) in enumerate(case["steps"]):
+        DM = mutate_dm(DM, op, target)
+        for e in run_chirpfn_case(dict(case["base"], dm=dm_value(DM)), DM):
+            e["_desc"] = "call %d on one geometry (%s): %s" % (i, op, e["_desc"])
+            evs.append(e)
+    return evs
+
+
+def gen_toneseq_case(rnd, Ns):
+    base = gen_bb_case(rnd, "tone", Ns)
+    z = bb_signal(base, np.zeros(bb_shape(base), base["dtype"]))
+    ref, _, refis = ref_of(base, z)
+
+    def ok(v):
+        d = edge_delays(z, Fraction(float(v)), ref, refis)
+        return not any(x != 0 and abs(x - round(x)) < Fraction(1, 1000) for x in d)
+    return {"kind": "toneseq", "base": base, "steps": gen_dm_steps(rnd, base["dm"], ok, 3)}
+
+
+def run_toneseq_case(case):
+    """several coherent dedispersions of the SAME signal object with nearby DMs (DM object stepped in place)"""
+    base = case["base"]
+    z, data, ks = tone_signal(base)
+    evs, DM = [], None
+    for i, (op, target) in enumerate(case["steps"]):
+        DM = mutate_dm(DM, op, target)
+        e, kw, y, o = tone_event(base, z, data, ks, DM, Fraction(dm_value(DM)), "call %d on one signal (%s): " % (i, op))
+        evs.append(e)
+        if i == 1:
+            evs.append(supplied_event(base, z, DM, kw, y, o))
+    return evs
+
+
+RUNNERS = {"lawseq": run_lawseq_case, "incohseq": run_incohseq_case, "chirpseq": run_chirpseq_case,
+           "toneseq": run_toneseq_case, "law": run_law_case, "incoh": run_incoh_case, "chirpfn": run_chirpfn_case, "chirpsig": run_chirpsig_case,
            "crop": run_crop_case, "tone": run_tone_case, "cohdd": run_cohdd_case, "roundtrip": run_roundtrip_case}
 
 
